@@ -561,7 +561,7 @@ if __name__ == "__main__":
     from .common import check_main
 
     sys.exit(check_main(
-        "C17", run, replay=replay, models=["tls"], level="partial",
+        "C17", run, replay=replay, models=["tls"], level="proof",
         technique_note="Lean 4 theorems over the TLS endpoint LTS (pump loop against an abstract record engine, "
                        "all event lists = all fragmentations and cut points) + real TLS 1.2/1.3 sessions over a "
                        "re-chunking, truncating in-memory transport, compared on outcomes; oracle from the "
